@@ -168,6 +168,12 @@ func genReqs(t *rapid.T, docs []string, min, max int) []Req {
 		if rapid.IntRange(0, 5).Draw(t, "hasquery") == 0 {
 			q.Query = rapid.SampledFrom([]string{"x=1", "a=b&c=d", "%2F", "url=/docs"}).Draw(t, "query")
 		}
+		if rapid.IntRange(0, 3).Draw(t, "accept") == 0 {
+			q.Accept = rapid.SampledFrom([]string{"-", "*/*", "application/yaml", "text/plain", "application/json;q=0, */*;q=0", "application/vnd.oai.openapi+json", "image/png"}).Draw(t, "accept-value")
+		}
+		if rapid.IntRange(0, 5).Draw(t, "conditional-headers") == 0 {
+			q.Headers = append(q.Headers, rapid.SampledFrom([]string{"Range: bytes=0-14", "If-None-Match: *", `If-Match: "x"`, "If-Modified-Since: Wed, 21 Oct 2015 07:28:00 GMT", "Range: bytes=999999-"}).Draw(t, "conditional"))
+		}
 		out = append(out, q)
 	}
 	return out
